@@ -777,6 +777,13 @@ func runCLI(args []string) int {
 		fs.Parse(args[1:])
 		return iriCLI(*in, *out)
 	}
+	if args[0] == "idfmt" {
+		fs := flag.NewFlagSet("idfmt", flag.ExitOnError)
+		in := fs.String("in", "", "candidates (ndjson: {chars: [...]})")
+		out := fs.String("out", "", "results (ndjson)")
+		fs.Parse(args[1:])
+		return idfmtCLI(*in, *out)
+	}
 	fmt.Fprintln(os.Stderr, "unknown command", args[0])
 	return 2
 }
